@@ -257,6 +257,46 @@ def tlc_model(module, cfg, workers=NCPU, heap="12g", timeout=1500, env=None, ext
             "violated": violated, "log": lg, "coverage": cov, "wall_s": round(time.time() - t0, 1)}
 
 
+def tlc_emit(module, cfg, marker, workers=NCPU, heap="8g", timeout=900, cache_deps=None, tag=None):
+    """Run TLC and collect the JSON payloads printed as <<"MARKER", "<json>">> (behaviours generated from a Layer-2 model).
+    With cache_deps the result is cached under out/cases keyed by the hash of those spec files."""
+    cfile = None
+    if cache_deps:
+        key = spec_hash(cache_deps, cfg)
+        cfile = os.path.join(OUT, "cases", "%s-%s.ndjson" % (tag or cfg, key))
+        if os.path.exists(cfile):
+            return read_ndjson(cfile), None
+    md = new_metadir()
+    lg = os.path.join(OUT, "tlc", "%s-%s.emit.log" % (module.replace(".tla", ""), cfg.replace(".cfg", "")))
+    t0 = time.time()
+    rcs = run_parallel([(tlc_cmd(module, cfg, workers=workers, heap=heap, metadir=md), {}, lg, timeout)])
+    shutil.rmtree(md, ignore_errors=True)
+    if rcs[0] is None:
+        raise Broken("TLC %s/%s timed out" % (module, cfg))
+    txt = open(lg).read()
+    out = []
+    pat = re.compile(r'^<<"%s", "(.*)">>\s*$' % marker)
+    for line in txt.splitlines():
+        m = pat.match(line)
+        if m:
+            out.append(json.loads(json.loads('"' + m.group(1) + '"')))
+    states = gen = 0
+    for line in txt.splitlines():
+        mm = STATS_RE.match(line)
+        if mm:
+            gen, states = int(mm.group(1)), int(mm.group(2))
+    violated = re.findall(r"Error: Invariant (\S+) is violated", txt)
+    if "Finished in" not in txt:
+        raise Broken("TLC %s/%s did not finish (rc=%s)\n%s" % (module, cfg, rcs[0], txt[-2000:]))
+    log("emit %s/%s: %d payloads, %d distinct states, %.1fs" % (module, cfg, len(out), states, time.time() - t0))
+    info = {"module": module, "cfg": cfg, "states": states, "transitions": gen, "ok": not violated, "violated": violated,
+            "coverage": {}, "wall_s": round(time.time() - t0, 1)}
+    if cfile and not violated:
+        os.makedirs(os.path.dirname(cfile), exist_ok=True)
+        write_ndjson(cfile, out)
+    return out, info
+
+
 # --------------------------------------------------------------------------- driver
 def drive(cases_file, out_prefix, workers=NCPU, timeout_ms=5000, san=False, wall=3000):
     for f in glob.glob(out_prefix + ".*.ndjson"):
